@@ -240,6 +240,12 @@ def check_spatial(ctx, case):
             src = CSEPCatalog(data=list(events), region=bound_to)
             # update_stats (documented flag) on every other variant: same kept events
             kw = {"update_stats": True} if (via in ("bound", "arg_over_far")) == in_place else {}
+            if case.get("refused_gridding_first"):
+                # the events were first gridded on the region (refused when one of them lies outside it; not judged), by a catalog
+                # bound to it, and when the filtered catalog itself is bound to the region, by that catalog
+                for g in ((lambda: CSEPCatalog(data=list(events), region=region).spatial_counts()),
+                          (lambda: src.spatial_counts()), (lambda: src.spatial_event_probability())):
+                    call(g)
             o = call(lambda: src.filter_spatial(None if via == "bound" else region, in_place=in_place, **kw))
             if not o.ok:
                 ctx.unexpected(o, "filter_spatial" + (":update_stats" if kw else ""))
@@ -358,7 +364,8 @@ def spatial_cases(draw):
     for p in list(pts[:3]):
         if draw(st.booleans()):
             pts.append([p[0] + (360.0 if p[0] < 0 or draw(st.booleans()) else -360.0), p[1]])
-    return {"k": "spatial", "region": rc, "points": pts, **({"np_bool": True} if draw(st.integers(0, 2)) == 0 else {})}
+    return {"k": "spatial", "region": rc, "points": pts, **({"np_bool": True} if draw(st.integers(0, 2)) == 0 else {}),
+            **({"refused_gridding_first": True} if draw(st.booleans()) else {})}
 
 
 def run(ctx):
